@@ -59,11 +59,16 @@ def one_case(rep, spec, index):
         if fc.tp is not None:
             fc.tp = min(fc.tp, fc.t_feed - 1.0)
     units = rng.choice(gen.UNITS)
-    case = dict(fc.describe(), index=index, compositions=[c.p for c in comps], basis=basis, units=units)
+    if len(comps) >= 2 and rng.random() < 0.2:
+        comps[-1] = comps[0] if rng.random() < 0.5 else Composition(p=comps[0].p, type=comps[0].type)  # a replicate measurement (another sample at the same feed)
     p1, p2 = fc.p1.value, fc.p2.value
+    # every point may have been measured on its own sample: the permeances behind the fluxes differ from point to point
+    per_point = [(p1, p2)] + [((p1, p2) if rng.random() < 0.6 else (gen.gen_permeance_value(rng), gen.gen_permeance_value(rng))) for _ in comps[1:]]
+    case = dict(fc.describe(), index=index, compositions=[c.p for c in comps], basis=basis, units=units, permeances_per_point=per_point)
     fluxes, ystars = [], []
-    for c in comps:
+    for c, (p1, p2) in zip(comps, per_point):
         fc.comp = c
+        fc.p1, fc.p2 = Permeance(value=p1), Permeance(value=p2)
         try:
             with guards.budget(proc.SOFT_BUDGET), guards.tap() as taps:
                 j = fc.pv.calculate_partial_fluxes(**fc.kwargs())
@@ -86,6 +91,8 @@ def one_case(rep, spec, index):
         rep.require("curve permeances are exposed in kg/(m2 h kPa)", all(p[i].units == Units.kg_m2_h_kPa for p in curve.permeances for i in (0, 1)), case)
         for k, c in enumerate(comps):
             fc.comp = c
+            p1, p2 = per_point[k]
+            fc.p1, fc.p2 = Permeance(value=p1), Permeance(value=p2)
             j = fluxes[k]
             got = (curve.permeances[k][0].value, curve.permeances[k][1].value)
             ck = dict(case, point=k)
